@@ -5,7 +5,8 @@
  *   blocks:   SCPI_ResultArbitraryBlock of every length 0..1100 x 3 byte patterns; 65535, 65536, 70000 bytes
  *             one-shot and streamed in 4096-byte calls
  *   headers:  SCPI_ResultArbitraryBlockHeader for 10^k-1, 10^k, 10^k+1 (k <= 8) and 999999999
- *   scripts:  every sequence of <= 5 calls over {Header(0), Header(1), Header(2), Header(4), Data(0..3)} that a
+ *   scripts:  every sequence of <= 5 calls over {Header(0), Header(1), Header(2), Header(4), Data(0..3), one-shot Block(2),
+ *             one-element int16 array in either byte order} that a
  *             handler can sensibly make (data only into an open block, or over-length data that must be refused),
  *             incl. abandoned blocks followed by a new header, then SCPI_ResultInt32(7)
  * Oracle: independent encoder ('#', digit count, decimal byte count, elements big-endian for NORMAL and
@@ -52,8 +53,11 @@ static scpi_result_t h_q(scpi_t * c) {
         case J_HEADER: SCPI_ResultArbitraryBlockHeader(c, j_len); break;
         default:
             for (i = 0; i < j_nscript; i++) {
+                static const int16_t one[1] = {0x4142};
                 if (j_script[i] < 4) SCPI_ResultArbitraryBlockHeader(c, (size_t) (j_script[i] == 3 ? 4 : j_script[i]));
-                else SCPI_ResultArbitraryBlockData(c, scriptdata, (size_t) (j_script[i] - 4));
+                else if (j_script[i] < 8) SCPI_ResultArbitraryBlockData(c, scriptdata, (size_t) (j_script[i] - 4));
+                else if (j_script[i] == 8) SCPI_ResultArbitraryBlock(c, "PQ", 2);
+                else SCPI_ResultArrayInt16(c, one, 1, j_script[i] == 9 ? SCPI_FORMAT_SWAPPED : SCPI_FORMAT_NORMAL);
             }
             SCPI_ResultInt32(c, 7);
             break;
@@ -103,7 +107,7 @@ int main(int argc, char ** argv) {
     static const char * tname[10] = {"int8", "uint8", "int16", "uint16", "int32", "uint32", "int64", "uint64", "float", "double"};
     int t, f, p, k;
     size_t n, i;
-    char descr[200];
+    char descr[400];
     mc_init(argc, argv);
     tc_init(&T, cmds, 16, 8);
 
@@ -187,13 +191,19 @@ int main(int argc, char ** argv) {
                 for (i = 0; i < (size_t) L && sane; i++) {
                     int op = idx[i];
                     if (op < 4) { long hn = op == 3 ? 4 : op; if (count > 0) e_put(",", 1); e_header((unsigned long long) hn); remaining = hn; }
-                    else {
+                    else if (op < 8) {
                         long dk = op - 4;
                         if (remaining < 0) { if (dk == 0) sane = 0; else refused++; }           /* no open block: zero-length data is meaningless, real data must be refused */
                         else if (dk > remaining) refused++;
                         else { e_put(scriptdata, (size_t) dk); remaining -= dk; if (remaining == 0) { count++; remaining = -1; } }
+                    } else {
+                        /* a complete block in one call (abandons whatever was open): "PQ", or one int16 0x4142 in either byte order */
+                        if (count > 0) e_put(",", 1);
+                        e_header(2);
+                        e_put(op == 8 ? "PQ" : op == 9 ? "\x42\x41" : "\x41\x42", 2);
+                        count++; remaining = -1;
                     }
-                    o += snprintf(descr + o, sizeof descr - (size_t) o, op < 4 ? "Header(%d) " : "Data(%d) ", op < 4 ? (op == 3 ? 4 : op) : op - 4);
+                    o += snprintf(descr + o, sizeof descr - (size_t) o, op < 4 ? "Header(%d) " : op < 8 ? "Data(%d) " : op == 8 ? "Block(2)%.0d " : op == 9 ? "ArrayInt16[1]/SWAPPED%.0d " : "ArrayInt16[1]/NORMAL%.0d ", op < 4 ? (op == 3 ? 4 : op) : op < 8 ? op - 4 : 0);
                 }
                 if (sane && MC_CASE()) {
                     if (count > 0) e_put(",", 1);
@@ -204,7 +214,7 @@ int main(int argc, char ** argv) {
                     n_refused += (unsigned long long) refused;
                     run_and_compare("script", descr, refused);
                 }
-                for (k = L - 1; k >= 0; k--) { if (++idx[k] < 8) break; idx[k] = 0; }
+                for (k = L - 1; k >= 0; k--) { if (++idx[k] < 11) break; idx[k] = 0; }
                 if (k < 0) break;
             }
         }
